@@ -79,6 +79,9 @@ class TreeModel(e1_history.Model):
         w.nreg = 0
         w.completed_unreg = 0
         w.pending_seen = set()
+        w.reg_pairs = []        # (component, parent) of every register() performed
+        w.unreg_req = {}        # component -> its parent when unregister() was requested
+        w.unreg_pairs = []      # (component, former parent) of every completed unregistration
         w.probes = []      # (event, kind, target label, allowed set, must: bool)
         w.bad = []
         w.has_unreg = False
@@ -100,6 +103,7 @@ class TreeModel(e1_history.Model):
             if c.label in w.pending_seen and not pend and c.parent is c:
                 w.pending_seen.discard(c.label)
                 w.completed_unreg += 1
+                w.unreg_pairs.append((c.label, w.unreg_req.pop(c.label, None)))
             elif c.label in w.pending_seen and not pend:
                 # pending flag gone but still attached
                 w.pending_seen.discard(c.label)
@@ -118,8 +122,10 @@ class TreeModel(e1_history.Model):
                 w.reg_with_queue = True
             c.register(p)
             w.nreg += 1
+            w.reg_pairs.append((c.label, p.label))
         elif k == 'unreg':
             c = comps[op[1]]
+            w.unreg_req[c.label] = c.parent.label
             c.unregister()
             w.pending_seen.add(c.label)
             w.has_unreg = True
@@ -228,6 +234,15 @@ class TreeModel(e1_history.Model):
             for k, seen in d.items():
                 if len(seen) != len(set(seen)):
                     bad.append(('I3-%s-twice' % what, 'one `%s` event was delivered twice to the same component: %r' % (what, seen)))
+        # ... and every announcement names the component and the parent it joined / left
+        for what, exp in (('registered', w.reg_pairs), ('unregistered', w.unreg_pairs)):
+            named = {}
+            for ent in LOG:
+                if ent[0] == what:
+                    named[id(ent[1])] = tuple(getattr(a, 'label', None) for a in ent[1].args[:2])
+            if sorted(named.values(), key=repr) != sorted(exp, key=repr) and len(named) == len(exp):
+                bad.append(('I3-%s-names' % what, '`%s` events announced (component, parent) pairs %r, the completed operations were %r'
+                            % (what, sorted(named.values(), key=repr), sorted(exp, key=repr))))
         for p in w.probes:
             got = [ent[2] for ent in LOG if ent[0] in ('probe', 'bcast') and ent[1] is p['ev']]
             if len(got) != len(set(got)):
